@@ -99,9 +99,8 @@ fn eval_config(c: &Case, rule: Rule, aa: bool, cov: &Cov) -> Result<u64, Violati
         Ok(v) => v,
         Err(p) => return Err(Violation::new("fill/panic", case_str(c, rule, aa), format!("subject panicked: {}", p))),
     };
-    if !idle {
-        return Err(Violation::new("fill/rasterizer-not-idle", case_str(c, rule, aa), "rasteriser holds edges or bounds after fill returned".to_string()));
-    }
+    // whether the rasteriser is idle afterwards is C10's question (the property's own hook), not C01's
+    let _ = idle;
     for (i, &p) in px.iter().enumerate() {
         let a = p >> 24;
         let ok_rgb = (p & 0xff) == a && ((p >> 8) & 0xff) == a && ((p >> 16) & 0xff) == a;
